@@ -2,6 +2,7 @@
 
 program = {
   'cfg':  {'msg': bool, 'frag': [client|None, server|None], 'rbuf': [c, s], 'ka': seconds, 'life': seconds,
+           'on_close_waits': 'pending' | seconds  (the handlers' on_close waits for the side's outstanding request-responses / sleeps),
            'lease': {...}|None, 'idmask': int|None, 'none_empty': bool, 'write_delay': [c_seconds, s_seconds] (slow link)},
   'inter': [interaction spec, ...]      (started by 'start' ops, in order)
   'ops':  [[op, args...], ...]
@@ -185,6 +186,20 @@ def make_handler_class(scn, side):
 
         async def on_close(self, rsocket, exception=None):
             self._ev('on_close', exc=repr(exception) if exception else None)
+            waits = scn.cfg.get('on_close_waits')
+            if waits:
+                # an application whose close notification does some work of its own: it sleeps, or it waits until the
+                # requests it has outstanding have got their outcome (which the library owes them by now)
+                if waits == 'pending':
+                    for _ in range(6000):
+                        futs = [st_['fut'] for st_ in scn.st.values() if st_['spec']['side'] == side and st_['spec']['k'] == 'rr'
+                                and st_.get('fut') is not None]
+                        if all(f.done() for f in futs):
+                            break
+                        await asyncio.sleep(0.01)
+                else:
+                    await asyncio.sleep(float(waits))
+                self._ev('on_close_returned')
             if side == 'c' and scn.cfg.get('on_close_reconnect'):
                 self._ev('reconnect_call', where='on_close')
                 await rsocket.reconnect()
@@ -227,6 +242,7 @@ def make_handler_class(scn, side):
             resp = st['spec'].get('resp', {'mode': 'now', 'p': [1, 0]})
             mode = resp.get('mode', 'now')
             if mode == 'raise':
+                self._ev('handler_raises', k='rr', uid=uid, sid=sid)
                 raise A.AppError('handler %d raises' % uid)
             fut = world.loop.create_future()
             st['hfut'] = fut
